@@ -201,7 +201,7 @@ CLAIMED = {
         "1-3(4), unions, pentagon disks, multi-round sets, globe pieces, sets up to 16807 (thorough 117k) cells; each set in "
         "sorted, reversed and shuffled order) is validated by TLC: result set is canonical for the input and equals the "
         "reference; uncompactCells reproduces S, respects the capacity (E_MEMORY_BOUNDS, sentinels, canaries) and rejects "
-        "coarser targets (E_RES_MISMATCH); uncompactCellsSize = sum of closed-form child counts (BigNat).",
+        "coarser targets (E_RES_MISMATCH); uncompactCellsSize = sum of closed-form child counts (BigNat). "
         "H3CompactAlgo.tla models one round of the hash/probe algorithm (3 parents, <= 9 cells, every hash function, order and "
         "multiset; thorough also 4 parents: 143.9M states); its collision scenarios (parents sharing a residue modulo the round's "
         "size, runs of slots, wrap-around at slots n-2 / n-1, pentagon parents in the chain) are realised with real cells and "
